@@ -12,10 +12,6 @@ Definition is_cont (s : Z) : Prop := s = S_ObjectKey \/ s = S_ObjectValue \/ s =
 Definition stack_ok (st : list Z) : Prop :=
   exists cs, st = cs ++ [S_Value] /\ Forall is_cont cs.
 
-(* "a value has been completed in the enclosing container": ObjectValue becomes ObjectKey *)
-Definition valfix (st : list Z) : list Z :=
-  match st with s :: t => (if s =? S_ObjectValue then S_ObjectKey else s) :: t | [] => [] end.
-
 Lemma stack_ok_init : stack_ok [S_Value].
 Proof. exists []. split; [reflexivity|constructor]. Qed.
 
